@@ -188,13 +188,15 @@ func Specs() map[string]*PropSpec {
 		Stubs:       []string{"c07NewEVM/c07Call/c07Create/c07Intrinsic", "c07Bank", "c07FeeMarket", "vEVMKeeper", "vFeeMarket"},
 	}
 	m["C03"] = &PropSpec{
-		ID: "C03", Pkgs: []string{"./app/ante/evm", "./app/ante/cosmos"},
+		ID: "C03", Pkgs: []string{"./app/ante/evm", "./app/ante/cosmos", "./x/evm/keeper", "./ethereum/eip712"},
 		Quick:    []Inst{{Pkg: "app/ante/evm", Fn: "VerifC03_Nonce", Params: pm("msgs", "3")}, {Pkg: "app/ante/cosmos", Fn: "VerifC03_Eip712Sequence", Params: pm(), EngineReplay: true},
-			{Pkg: "app/ante/evm", Fn: "VerifC03_EthChainID", Params: pm(), EngineReplay: true}},
+			{Pkg: "app/ante/evm", Fn: "VerifC03_EthChainID", Params: pm(), EngineReplay: true}, {Pkg: "x/evm/keeper", Fn: "VerifC03_ExecutionKeepsSequence", Params: pm(), EngineReplay: true},
+			{Pkg: "ethereum/eip712", Fn: "VerifC03_Eip712DirectCoverage", Params: pm(), EngineReplay: true}},
 		Thorough: []Inst{{Pkg: "app/ante/evm", Fn: "VerifC03_Nonce", Params: pm("msgs", "4")}, {Pkg: "app/ante/cosmos", Fn: "VerifC03_Eip712Sequence", Params: pm(), EngineReplay: true},
-			{Pkg: "app/ante/evm", Fn: "VerifC03_EthChainID", Params: pm(), EngineReplay: true}},
+			{Pkg: "app/ante/evm", Fn: "VerifC03_EthChainID", Params: pm(), EngineReplay: true}, {Pkg: "x/evm/keeper", Fn: "VerifC03_ExecutionKeepsSequence", Params: pm(), EngineReplay: true},
+			{Pkg: "ethereum/eip712", Fn: "VerifC03_Eip712DirectCoverage", Params: pm(), EngineReplay: true}},
 		Bounds: map[string]string{
-			"quick":    "Ethereum transactions of <= 3 messages by 2 senders in any interleaving (legacy and dynamic-fee), any nonces, any account sequences < 2^62; immediate replay of the accepted transaction; chain binding on the Ethereum route: one legacy (any v < 2^40), access-list or dynamic-fee (any chain id < 2^40) transaction through the signature decorator with go-ethereum's signer selection and chain-id check executed, AllowUnprotectedTxs on/off",
+			"quick":    "Ethereum transactions of <= 3 messages by 2 senders in any interleaving (legacy and dynamic-fee), any nonces, any account sequences < 2^62; immediate replay of the accepted transaction; chain binding on the Ethereum route: one legacy (any v < 2^40), access-list or dynamic-fee (any chain id < 2^40) transaction through the signature decorator with go-ethereum's signer selection and chain-id check executed, AllowUnprotectedTxs on/off; execution (real ApplyMessageWithConfig, call or contract creation, any interpreter outcome, 0-3 later messages of the same transaction already accepted by the ante handler) leaves the sender's sequence exactly where the ante handler put it; EIP-712 over a SIGN_MODE_DIRECT sign doc (one bank message, any memo / timeout height / fee / payer / granter / sequence / account number, extension options of either kind): accepted => every such field reaches the sign bytes",
 			"thorough": "<= 4 messages",
 		},
 		Outside:     []string{"signature validity (keccak-256, RLP, secp256k1 recovery, EIP-712 typed-data hashing): cannot be encoded for an SMT solver within reach", "that a signature verifies only for the exact signed content (inside VerifySignature / go-ethereum)", "the plain Cosmos route (SDK SigVerificationDecorator) and the non-legacy EIP-712 path"},
@@ -222,13 +224,13 @@ func Specs() map[string]*PropSpec {
 			{Pkg: "precompiles/staking", Fn: "VerifC02_StakingMirror", Params: pm(), EngineReplay: true},
 			{Pkg: "precompiles/distribution", Fn: "VerifC02_DistributionMirror", Params: pm(), EngineReplay: true},
 			{Pkg: "x/evm/keeper", Fn: "VerifC02_KeeperFlush", Params: pm()}, {Pkg: "precompiles/ics20", Fn: "VerifC04_Ics20", Params: pm(), EngineReplay: true}},
-		Thorough: []Inst{sd("VerifC05_StateDB", "ops", "4", "kinds", "tdf", "amts", "1"), sd("VerifC05_StateDB", "ops", "4", "kinds", "td"),
+		Thorough: []Inst{sd("VerifC05_StateDB", "ops", "3", "kinds", "tdf"), sd("VerifC05_StateDB", "ops", "4", "kinds", "tdf", "amts", "1", "addrs", "2"), sd("VerifC05_StateDB", "ops", "4", "kinds", "td", "amts", "1"),
 			{Pkg: "precompiles/staking", Fn: "VerifC02_StakingMirror", Params: pm(), EngineReplay: true},
 			{Pkg: "precompiles/distribution", Fn: "VerifC02_DistributionMirror", Params: pm(), EngineReplay: true},
 			{Pkg: "x/evm/keeper", Fn: "VerifC02_KeeperFlush", Params: pm()}, {Pkg: "precompiles/ics20", Fn: "VerifC04_Ics20", Params: pm(), EngineReplay: true}},
 		Bounds: map[string]string{
 			"quick":    "every program of <= 3 operations from {value transfer, SELFDESTRUCT, nested frame} over 3 accounts, and every program of 4 operations from {transfer, SELFDESTRUCT}: after Commit total supply = sum of surviving balances, never above the initial supply, every balance = before + received - paid; staking precompile delegate through the real StateDB and the real method body: signer -> precompile and signer -> contract -> precompile, with / without attached value, delegator = signer or calling contract, contract-internal transfers before and after the call, all balances and amounts symbolic (< 2^100), final Commit, supply and every balance compared with reference bookkeeping; distribution precompile withdrawDelegatorRewards / claimRewards / withdrawValidatorCommission in the same topologies with the payout going to the named account or to a separate withdraw address; keeper side: the write-back of one transfer or self-destruct (x/evm/keeper SetAccount / SetBalance / DeleteAccount, either order, any balances and value < 2^128, sender account existing or not) lands the exact balances and conserves the supply; ICS-20 transfer in the same topologies (escrow ledger)",
-			"thorough": "4 operations with frames",
+			"thorough": "additionally 4 operations with frames over 2 accounts (one amount value)",
 		},
 		Outside:     []string{"staking createValidator and the werc20 / bank precompiles (not decided here)", "a withdrawal with nothing outstanding (the precompile indexes res.Amount[0] of an empty answer: the transaction panics and is rolled back)", "the EVM interpreter itself (operations are issued directly against the StateDB)", "fees (C07)"},
 		Assumptions: []string{"as C05", "precompile harness: SetAccount mints / burns the balance difference exactly like x/evm/keeper SetBalance; the staking module moves the delegated coins to the bonded pool in the same ledger; the account of the executing contract is cached before the precompile runs (the EVM fetched its code), the signer's only when it attached value"},
